@@ -32,6 +32,10 @@ func main() {
 		os.Exit(cmdVC(os.Args[2:]))
 	case "list":
 		os.Exit(cmdList(os.Args[2:]))
+	case "gen-accept":
+		os.Exit(cmdGenAccept(os.Args[2:]))
+	case "gen-gettype":
+		os.Exit(cmdGenGetType(os.Args[2:]))
 	case "errfuncs":
 		os.Exit(cmdErrFuncs(os.Args[2:]))
 	case "replay":
